@@ -733,8 +733,48 @@ def run(ctx):
             return got, 'canonical reader returns a different group'
         return got, None
 
+    def broken_variants(g):
+        """malformed groups made from `g` whose forging starts well and then raises: a failed call must leave nothing behind"""
+        good = json.loads(json.dumps(g['contents'][0]))
+        out = []
+        for mut in range(4):
+            c = json.loads(json.dumps(g['contents'][-1]))
+            if mut == 0:
+                c['kind'] = 'no_such_kind'
+            elif mut == 1:
+                c.pop('fee', None) if 'fee' in c else c.pop(sorted(k for k in c if k != 'kind')[0], None)
+            elif mut == 2:
+                if 'source' in c:
+                    c['source'] = c['source'][:-1]
+                else:
+                    c['kind'] = 'transaction'
+            else:
+                for k in ('counter', 'amount', 'balance', 'level'):
+                    if k in c:
+                        c[k] = 'x1'
+            out.append({'branch': g['branch'], 'contents': [good, c]})
+        out.append({'branch': g['branch'][:-2], 'contents': [good]})
+        out.append({'contents': [good]})
+        return out
+
     results, lines = [], []
-    for g in groups:
+    n_after_failure = 0
+    for gi, g in enumerate(groups):
+        if gi % 6 == 5:
+            # history: a call that fails half-way (malformed later content) right before a well-formed group
+            for bg in broken_variants(groups[gi - 1])[gi // 6 % 6:][:2]:
+                try:
+                    opforge.forge_operation_group(bg)
+                    ctx.count('failed-call-before', 'accepted')
+                except Exception as e:  # noqa
+                    ctx.count('failed-call-before', type(e).__name__)
+                    n_after_failure += 1
+                    got, problem = check(g)
+                    if problem is not None and check(g)[1] is None:      # wrong only right after the failed call
+                        ctx.violation('after-failed-call:' + type(e).__name__,
+                                      f'forge_operation_group raises {type(e).__name__} on {json.dumps(bg)[:300]}; the NEXT call, on the well-formed group '
+                                      f'{json.dumps(g)[:300]}, returns {got[:120]}… ({problem}); called again it returns the canonical bytes',
+                                      {'failing_call': bg, 'group': g, 'forged_after_failure': got, 'problem': problem})
         got, problem = check(g)
         results.append((got, problem))
         lines.append('forge ' + group_line(g))
